@@ -6,6 +6,7 @@ CONSTANTS
   KF_FindUnitRelock = FALSE
   MaxOps = 3
   ExportOps = 2
+  RequestStateKeptAcrossLines = FALSE
   VerifierRemembersTokens = FALSE
   RedactNeedsTLSRecord = FALSE
   KeyFamily = "cover"
